@@ -247,3 +247,72 @@ def check(prog, run):
     from .. import aliasmut
     aliasmut.check(prog, run, "A1", ["py_gql.sdl.ast_type_builder", "py_gql.sdl.schema_from_ast", "py_gql.schema"], 3,
                    "the schema an extension or transform started from would be modified (and left inconsistent with its lookup tables)")
+
+    # ---- W1 construction-time state is written into the schema before the traversal, never after it
+    from ..cfg import event_paths
+    r = run.rule("W1", "schema visitors (classes with on_schema in the anchored modules): a write of construction-time state (`self.…`) "
+                       "into the schema's registries (`<schema>.directives` / `<schema>.types`: update / item store) happens before the "
+                       "inherited traversal `super().on_schema(…)` on every path, never after it: the traversal replaces rebuilt "
+                       "elements in those registries, and a later write-back of the objects captured at construction undoes that", 1)
+    n_sites = 0
+    for c in prog.all_classes():
+        m = c.methods.get("on_schema")
+        if m is None or not c.module.name.startswith("py_gql."):
+            continue
+
+        # locals whose content derives from the visitor's own state (fixpoint over assignments, loops and container fills)
+        own = {"self"}
+        for _round in range(6):
+            before = len(own)
+            for x in own_nodes(m.node):
+                def mentions(e):
+                    return any(isinstance(y, ast.Name) and y.id in own for y in ast.walk(e))
+                if isinstance(x, ast.Assign) and mentions(x.value):
+                    for t in x.targets:
+                        base = t
+                        while isinstance(base, (ast.Subscript, ast.Attribute)):
+                            base = base.value
+                        if isinstance(base, ast.Name) and not (isinstance(t, ast.Attribute) or (isinstance(t, ast.Subscript) and isinstance(t.value, ast.Attribute))):
+                            own.add(base.id)
+                        for y in ast.walk(t):
+                            if isinstance(y, ast.Name) and isinstance(y.ctx, ast.Store):
+                                own.add(y.id)
+                elif isinstance(x, (ast.For, ast.AsyncFor)) and mentions(x.iter):
+                    own |= {y.id for y in ast.walk(x.target) if isinstance(y, ast.Name)}
+                elif isinstance(x, ast.Call) and isinstance(x.func, ast.Attribute) and x.func.attr in ("append", "add", "update", "extend", "setdefault") \
+                        and isinstance(x.func.value, ast.Name) and any(mentions(a) for a in x.args):
+                    own.add(x.func.value.id)
+            if len(own) == before:
+                break
+        own.discard(m.params[1] if len(m.params) > 1 else "")      # the schema being visited is not construction-time state
+
+        def from_own(e, own=own):
+            return any(isinstance(y, ast.Name) and y.id in own for y in ast.walk(e))
+
+        def ev(n, from_own=from_own):
+            if isinstance(n, ast.Call) and isinstance(n.func, ast.Attribute):
+                f = n.func
+                if f.attr == "on_schema" and isinstance(f.value, ast.Call) and isinstance(f.value.func, ast.Name) and f.value.func.id == "super":
+                    return "traverse"
+                if f.attr in ("update", "setdefault") and isinstance(f.value, ast.Attribute) and f.value.attr in ("directives", "types") \
+                        and any(from_own(a) for a in n.args):
+                    return "write"
+            if isinstance(n, ast.Assign) and any(isinstance(t, ast.Subscript) and isinstance(t.value, ast.Attribute) and t.value.attr in ("directives", "types")
+                                                 for t in n.targets) and from_own(n.value):
+                return "write"
+            return None
+        if not any(ev(n) == "write" for n in own_nodes(m.node)):
+            continue
+        n_sites += 1
+        normal, raised = event_paths(m.node, ev)
+        for seq in sorted(normal | raised):
+            core = [e for e in seq if e in ("write", "traverse")]
+            r.instance("%s.on_schema path %s" % (c.name, core))
+            if "traverse" in core and "write" in core[core.index("traverse"):]:
+                run.report(r, "%s:%s.on_schema:write-after-traversal" % (c.module.name, c.name), m.where(),
+                           "%s.on_schema writes construction-time state into the schema's registry after super().on_schema(...) has "
+                           "traversed it: elements the traversal rebuilt (an argument removed by a directive, a type healed away) are "
+                           "overwritten with the stale objects captured when the visitor was created" % c.name)
+                break
+    if not n_sites:
+        raise AnalysisError("C14.W1: no on_schema writing construction-time state into a registry was found")
